@@ -102,4 +102,14 @@ TEXTS = {
   "note": "Not decided: the actual process exit status and bytes, and agreement of field values across formats for concrete annotations.",
   "technique": "CFG must-pass-through pairing + who-may-reference + table totality + SSA data-dependence on encoders",
  },
+ "C16": {
+  "text": "Decides the coverage conditions without which a round trip cannot be lossless: R-FIELDCOV — every field of every external YAML/JSON struct of bufconfig that a reader consumes "
+          "is produced by a writer and conversely (read-only-by-design families and a frozen reasoned list excepted); R-ACCESSORCOV — every exported accessor of the config "
+          "interfaces reaching the writers' static call closure is consulted there; the v2 buf.yaml collapse of a single '.' module accounts for every field of the dropped entry "
+          "(tested in the guard, hoisted, or zeroed-and-hoisted); FileVersion switches are total or error. These rules re-derived the dropped includes and the ignored Disabled() "
+          "(both repaired) and three dropped buf.gen.yaml fields (recorded as known findings because an existing test pins the lossy output).",
+  "note": "Not decided: value-level equality after write+read (path re-basing arithmetic, ordering, defaults), idempotence of writing, and all of migration equivalence. A field that is "
+          "written from the wrong source still counts as written.",
+  "technique": "struct-field read/write coverage + interface accessor coverage over a static call closure (go/types)",
+ },
 }
